@@ -1,6 +1,7 @@
 import BasicModel.Gen.Limits
 import BasicModel.Lemmas.SortedList
 import BasicModel.Spec.MapSpec
+import BasicModel.Lemmas.RangeForms
 /-
   C15 — The program store is an ordered map with exact LIST / DELETE ranges.
 
@@ -8,6 +9,12 @@ import BasicModel.Spec.MapSpec
   `Nat → Option Line` (`Spec/MapSpec.lean`).  Every operation preserves the invariant `WF` (strictly
   ascending keys, keys ≤ 65529, every line stored under its own number) and refines the map
   operation; iterating `list_line` emits exactly `listSpec`.
+
+  The last section (`Statements`) is the level above the store: the operand forms `n`, `n-`, `-n`,
+  `a-b` and none of `Parse.lineNumberRange`, the refusal of a bare DELETE / an inverted range / a
+  number above 65529 by the parser, and `Runtime.doDelete` / `doList` / the listing state of
+  `Runtime.execute` tied to `removeRange_refines` and `list_emits_exactly`
+  (lemmas: `Lemmas/RangeForms.lean`).
 -/
 namespace Basic
 namespace Thm.C15
@@ -747,6 +754,8 @@ theorem wf_loadStr (lexFn : Str → Option Nat × List Token) (hlex : ∀ s n, (
   · cases h
   · simp only at h
     split at h
+    · cases h
+    split at h
     · cases hn : (lexFn s).1 with
       | none => rw [hn] at h; cases h; exact hl
       | some n => rw [hn] at h; cases h; exact wf_remove hl (some n)
@@ -845,6 +854,416 @@ theorem wf_run (ops : List Op) : WF (ops.foldl step {}) := by
 
 example : WF ([Op.ins ⟨10, by omega⟩ [], Op.ins ⟨5, by omega⟩ [], Op.delRange none (some 7),
     Op.renum 100 0 10].foldl step {}) := wf_run _
+
+/-! ### the statements LIST and DELETE: operand forms, parser, runtime
+
+  Helper lemmas: `Lemmas/RangeForms.lean`.  Parser states: `st0 ts cs ce` is the state with the
+  tokens `ts` still to read, no look-ahead, no remark seen.  `lit a` is the token the lexer makes of
+  the decimal numeral of `a` (`number_lit`).  Before every operand token an arbitrary run of
+  `.whitespace _` tokens (`AllWs ws`) is allowed; `[]` gives the forms without whitespace.
+  What follows the operand is constrained only as far as the parser looks: `StmtEnd tl` (end of the
+  tokens, `:`, ELSE or a remark, after any whitespace) always suffices. -/
+
+section Statements
+open Parse Lemmas.RangeForms Lemmas.C19 _root_.Basic.Runtime
+
+/-- `n`: both ends of the range are `n` -/
+theorem operand_n (ws tl : List Token) (a : Nat) (hw : AllWs ws) (ha : a ≤ 65529)
+    (htl : NoMinusNext tl) (cs ce : Nat) :
+    ∃ c₁ c₂ st', lineNumberRange.run (st0 (ws ++ lit a :: tl) cs ce)
+      = .ok ((lineExpr c₁ a, lineExpr c₂ a), st') :=
+  ⟨_, _, _, range_n ws (lit a) _ a tl hw (lit_isNum a) (parseU16_lit ha) ha htl cs ce⟩
+
+/-- `n-`: from `n` to 65529 -/
+theorem operand_n_minus (ws ws1 tl : List Token) (a : Nat) (hw : AllWs ws) (hw1 : AllWs ws1)
+    (ha : a ≤ 65529) (htl : NoNumNext tl) (cs ce : Nat) :
+    ∃ c₁ c₂ st', lineNumberRange.run (st0 (ws ++ lit a :: (ws1 ++ .operator .minus :: tl)) cs ce)
+      = .ok ((lineExpr c₁ a, lineExpr c₂ 65529), st') :=
+  ⟨_, _, _, range_n_minus ws ws1 (lit a) _ a tl hw hw1 (lit_isNum a) (parseU16_lit ha) ha htl cs ce⟩
+
+/-- `-n`: from 0 to `n` (whatever follows) -/
+theorem operand_minus_n (ws ws1 tl : List Token) (b : Nat) (hw : AllWs ws) (hw1 : AllWs ws1)
+    (hb : b ≤ 65529) (cs ce : Nat) :
+    ∃ c₁ c₂ st', lineNumberRange.run (st0 (ws ++ .operator .minus :: (ws1 ++ lit b :: tl)) cs ce)
+      = .ok ((lineExpr c₁ 0, lineExpr c₂ b), st') :=
+  ⟨_, _, _, range_minus_n ws ws1 (lit b) _ b tl hw hw1 (lit_isNum b) (parseU16_lit hb) hb cs ce⟩
+
+/-- `a-b` with `a ≤ b` (whatever follows) -/
+theorem operand_a_minus_b (ws ws1 ws2 tl : List Token) (a b : Nat) (hw : AllWs ws) (hw1 : AllWs ws1)
+    (hw2 : AllWs ws2) (hab : a ≤ b) (hb : b ≤ 65529) (cs ce : Nat) :
+    ∃ c₁ c₂ st', lineNumberRange.run
+        (st0 (ws ++ lit a :: (ws1 ++ .operator .minus :: (ws2 ++ lit b :: tl))) cs ce)
+      = .ok ((lineExpr c₁ a, lineExpr c₂ b), st') :=
+  ⟨_, _, _, range_n_minus_n ws ws1 ws2 (lit a) (lit b) _ _ a b tl hw hw1 hw2 (lit_isNum a) (lit_isNum b)
+    (parseU16_lit (Nat.le_trans hab hb)) (parseU16_lit hb) hab hb cs ce⟩
+
+/-- no operand: the full range 0 to 65529 -/
+theorem operand_none (tl : List Token) (htl : StmtEnd tl) (cs ce : Nat) :
+    ∃ c₁ c₂ st', lineNumberRange.run (st0 tl cs ce)
+      = .ok ((lineExpr c₁ 0, lineExpr c₂ 65529), st') :=
+  ⟨_, _, _, range_empty tl htl.noNum htl.noMinus cs ce⟩
+
+/-- an inverted range is refused with UNDEFINED LINE; the result is an error value, so no statement
+    is produced and nothing else happens -/
+theorem operand_inverted (ws ws1 ws2 tl : List Token) (a b : Nat) (hw : AllWs ws) (hw1 : AllWs ws1)
+    (hw2 : AllWs ws2) (hab : b < a) (ha : a ≤ 65529) (cs ce : Nat) :
+    ∃ e, lineNumberRange.run
+        (st0 (ws ++ lit a :: (ws1 ++ .operator .minus :: (ws2 ++ lit b :: tl))) cs ce) = .error e ∧
+      e.code = Code.undefinedLine :=
+  ⟨_, range_inverted ws ws1 ws2 (lit a) (lit b) _ _ a b tl hw hw1 hw2 (lit_isNum a) (lit_isNum b)
+    (parseU16_lit ha) (parseU16_lit (by simp only [maxLineNumber]; omega)) hab ha cs ce, rfl⟩
+
+/-- a number above 65529 in first position (forms `n`, `n-`, `n-m`; whatever follows) is refused
+    with UNDEFINED LINE; `t` is any numeral token spelling `a` in decimal -/
+theorem operand_first_too_large (ws tl : List Token) (t : Token) (a : Nat) (hw : AllWs ws)
+    (ht : IsNum t (RStd.natDigits a)) (ha : 65529 < a) (cs ce : Nat) :
+    ∃ e, lineNumberRange.run (st0 (ws ++ t :: tl) cs ce) = .error e ∧ e.code = Code.undefinedLine :=
+  ⟨_, range_bad_first ws t _ tl hw ht (parseU16_lit_bad ha) cs ce, rfl⟩
+
+/-- … in the form `-n` -/
+theorem operand_upto_too_large (ws ws1 tl : List Token) (t : Token) (b : Nat) (hw : AllWs ws)
+    (hw1 : AllWs ws1) (ht : IsNum t (RStd.natDigits b)) (hb : 65529 < b) (cs ce : Nat) :
+    ∃ e, lineNumberRange.run (st0 (ws ++ .operator .minus :: (ws1 ++ t :: tl)) cs ce) = .error e ∧
+      e.code = Code.undefinedLine :=
+  ⟨_, range_minus_bad ws ws1 t _ tl hw hw1 ht (parseU16_lit_bad hb) cs ce, rfl⟩
+
+/-- … as the second number of `a-n` -/
+theorem operand_second_too_large (ws ws1 ws2 tl : List Token) (t : Token) (a b : Nat) (hw : AllWs ws)
+    (hw1 : AllWs ws1) (hw2 : AllWs ws2) (ht : IsNum t (RStd.natDigits b)) (ha : a ≤ 65529)
+    (hb : 65529 < b) (cs ce : Nat) :
+    ∃ e, lineNumberRange.run
+        (st0 (ws ++ lit a :: (ws1 ++ .operator .minus :: (ws2 ++ t :: tl))) cs ce) = .error e ∧
+      e.code = Code.undefinedLine :=
+  ⟨_, range_bad_second ws ws1 ws2 (lit a) t _ _ a tl hw hw1 hw2 (lit_isNum a) ht (parseU16_lit ha) ha
+    (parseU16_lit_bad hb) cs ce, rfl⟩
+
+/-- a numeral token whose text is no `u16` at all (e.g. `1.5`, `1E3`) is refused as well -/
+theorem operand_not_u16 (ws tl : List Token) (t : Token) (s : Str) (hw : AllWs ws) (ht : IsNum t s)
+    (hs : Fmt.parseU16 s = none) (cs ce : Nat) :
+    ∃ e, lineNumberRange.run (st0 (ws ++ t :: tl) cs ce) = .error e ∧ e.code = Code.undefinedLine :=
+  ⟨_, range_bad_first ws t s tl hw ht (fun a h => by rw [hs] at h; cases h) cs ce, rfl⟩
+
+/-- the lexer makes `lit a` of the decimal numeral of `a` -/
+theorem lit_is_lexed (a : Nat) (ha : a ≤ 65535) (rest : List Char) (hb : Lex.NumBoundary rest) :
+    Lex.number (RStd.natDigits a ++ rest) = (lit a, rest) := number_lit a ha rest hb
+
+example : ∃ c₁ c₂ st', lineNumberRange.run (st0 [lit 10] 0 4)
+    = .ok ((lineExpr c₁ 10, lineExpr c₂ 10), st') :=
+  operand_n [] [] 10 AllWs.nil (by decide) stmtEnd_nil.noMinus 0 4
+example : ∃ c₁ c₂ st', lineNumberRange.run (st0 [lit 10, .operator .minus, .colon, .word .end] 0 6)
+    = .ok ((lineExpr c₁ 10, lineExpr c₂ 65529), st') :=
+  operand_n_minus [] [] _ 10 AllWs.nil AllWs.nil (by decide) (stmtEnd_colon _).noNum 0 6
+example : ∃ c₁ c₂ st', lineNumberRange.run (st0 [.whitespace 1, .operator .minus, .whitespace 2, lit 40000] 0 4)
+    = .ok ((lineExpr c₁ 0, lineExpr c₂ 40000), st') :=
+  operand_minus_n [.whitespace 1] [.whitespace 2] [] 40000 AllWs.nil.cons AllWs.nil.cons (by decide) 0 4
+example : ∃ c₁ c₂ st', lineNumberRange.run (st0 [lit 10, .operator .minus, lit 65529] 0 4)
+    = .ok ((lineExpr c₁ 10, lineExpr c₂ 65529), st') :=
+  operand_a_minus_b [] [] [] [] 10 65529 AllWs.nil AllWs.nil AllWs.nil (by decide) (by decide) 0 4
+example : ∃ c₁ c₂ st', lineNumberRange.run (st0 [.whitespace 1, .word .else] 0 4)
+    = .ok ((lineExpr c₁ 0, lineExpr c₂ 65529), st') :=
+  operand_none _ (stmtEnd_ws [.whitespace 1] _ AllWs.nil.cons (stmtEnd_else [])) 0 4
+example : ∃ e, lineNumberRange.run (st0 [lit 20, .operator .minus, lit 10] 0 6) = .error e ∧
+    e.code = Code.undefinedLine :=
+  operand_inverted [] [] [] [] 20 10 AllWs.nil AllWs.nil AllWs.nil (by decide) (by decide) 0 6
+example : ∃ e, lineNumberRange.run (st0 [.literal (.single (RStd.natDigits 65530))] 0 6) = .error e ∧
+    e.code = Code.undefinedLine :=
+  operand_first_too_large [] [] _ 65530 AllWs.nil (Or.inr (Or.inl rfl)) (by decide) 0 6
+example : ∃ e, lineNumberRange.run (st0 [.operator .minus, .literal (.single (RStd.natDigits 70000))] 0 6)
+    = .error e ∧ e.code = Code.undefinedLine :=
+  operand_upto_too_large [] [] [] _ 70000 AllWs.nil AllWs.nil (Or.inr (Or.inl rfl)) (by decide) 0 6
+example : ∃ e, lineNumberRange.run
+    (st0 [lit 10, .operator .minus, .literal (.double (RStd.natDigits 123456789))] 0 6) = .error e ∧
+    e.code = Code.undefinedLine :=
+  operand_second_too_large [] [] [] [] _ 10 123456789 AllWs.nil AllWs.nil AllWs.nil
+    (Or.inr (Or.inr rfl)) (by decide) (by decide) 0 6
+example : ∃ e, lineNumberRange.run (st0 [.literal (.single "1.5".toList)] 0 6) = .error e ∧
+    e.code = Code.undefinedLine :=
+  operand_not_u16 [] [] _ _ AllWs.nil (Or.inr (Or.inl rfl)) (by decide) 0 6
+example : Lex.number ("10-".toList) = (lit 10, "-".toList) :=
+  lit_is_lexed 10 (by decide) "-".toList (by decide)
+
+/-! #### whole lines through `Parse.parse` -/
+
+/-- a bare DELETE (followed by the end of the line, `:`, ELSE or a remark) does not parse:
+    ILLEGAL FUNCTION CALL (fix D17), and no statement is produced -/
+theorem delete_bare_refused (ln : Option Nat) (ws tl : List Token) (hw : AllWs ws) (htl : StmtEnd tl) :
+    ∃ e, parse ln (ws ++ .word .delete :: tl) = .error e ∧ e.code = Code.illegalFunctionCall ∧
+      e.line = ln := by
+  refine ⟨(bareDeleteErr (width ws) (width ws + 6)).inLine ln, ?_, rfl, rfl⟩
+  unfold parse
+  rw [parseTokens_delete_bare ws tl hw htl]
+
+/-- a bare LIST parses to the LIST statement for the full range 0 to 65529 -/
+theorem list_bare_full_range (ln : Option Nat) (ws tl : List Token) (hw : AllWs ws) (htl : LineEnd tl) :
+    ∃ c c₁ c₂, parse ln (ws ++ .word .list :: tl)
+      = .ok [.list c (lineExpr c₁ 0) (lineExpr c₂ 65529)] := by
+  have h := (parseTokens_list ws tl hw).2 _ _ _ _
+    (range_empty tl htl.stmtEnd.noNum htl.stmtEnd.noMinus _ _) (by rw [peek_afterPeek, htl])
+  exact ⟨_, _, _, by unfold parse; rw [h]; rfl⟩
+
+/-- the line `LIST a-b`, `a ≤ b ≤ 65529`, parses to the LIST statement with ends `a` and `b` -/
+theorem list_line_a_minus_b (ln : Option Nat) (ws ws0 ws1 ws2 tl : List Token) (a b : Nat)
+    (hw : AllWs ws) (hw0 : AllWs ws0) (hw1 : AllWs ws1) (hw2 : AllWs ws2) (htl : LineEnd tl)
+    (hab : a ≤ b) (hb : b ≤ 65529) :
+    ∃ c c₁ c₂, parse ln (ws ++ .word .list ::
+        (ws0 ++ lit a :: (ws1 ++ .operator .minus :: (ws2 ++ lit b :: tl))))
+      = .ok [.list c (lineExpr c₁ a) (lineExpr c₂ b)] := by
+  have h := (parseTokens_list ws _ hw).2 _ _ _ _
+    (range_n_minus_n ws0 ws1 ws2 (lit a) (lit b) _ _ a b tl hw0 hw1 hw2 (lit_isNum a) (lit_isNum b)
+      (parseU16_lit (Nat.le_trans hab hb)) (parseU16_lit hb) hab hb _ _)
+    (by rw [peek_st0, htl])
+  exact ⟨_, _, _, by unfold parse; rw [h]⟩
+
+/-- the line `DELETE a-b`, `a ≤ b ≤ 65529`, parses to the DELETE statement with ends `a` and `b` -/
+theorem delete_line_a_minus_b (ln : Option Nat) (ws ws0 ws1 ws2 tl : List Token) (a b : Nat)
+    (hw : AllWs ws) (hw0 : AllWs ws0) (hw1 : AllWs ws1) (hw2 : AllWs ws2) (htl : LineEnd tl)
+    (hab : a ≤ b) (hb : b ≤ 65529) :
+    ∃ c c₁ c₂, parse ln (ws ++ .word .delete ::
+        (ws0 ++ lit a :: (ws1 ++ .operator .minus :: (ws2 ++ lit b :: tl))))
+      = .ok [.delete c (lineExpr c₁ a) (lineExpr c₂ b)] := by
+  have hne : isEnd (peekTok (ws0 ++ lit a :: (ws1 ++ .operator .minus :: (ws2 ++ lit b :: tl))) false
+      (width ws) (width ws + 6)) = false := by
+    rw [(afterPeek_solid ws0 (lit a) _ hw0 (lit_isNum a).solid _ _).1]
+    rcases lit_isNum a with h | h | h <;> rw [h] <;> rfl
+  have h := (parseTokens_delete ws _ hw hne).2 _ _ _ _
+    (range_n_minus_n ws0 ws1 ws2 (lit a) (lit b) _ _ a b tl hw0 hw1 hw2 (lit_isNum a) (lit_isNum b)
+      (parseU16_lit (Nat.le_trans hab hb)) (parseU16_lit hb) hab hb _ _)
+    (by rw [peek_st0, htl])
+  exact ⟨_, _, _, by unfold parse; rw [h]⟩
+
+/-- the line `DELETE a-b` with `a > b` does not parse: UNDEFINED LINE -/
+theorem delete_line_inverted (ln : Option Nat) (ws ws0 ws1 ws2 tl : List Token) (a b : Nat)
+    (hw : AllWs ws) (hw0 : AllWs ws0) (hw1 : AllWs ws1) (hw2 : AllWs ws2)
+    (hab : b < a) (ha : a ≤ 65529) :
+    ∃ e, parse ln (ws ++ .word .delete ::
+        (ws0 ++ lit a :: (ws1 ++ .operator .minus :: (ws2 ++ lit b :: tl)))) = .error e ∧
+      e.code = Code.undefinedLine := by
+  have hne : isEnd (peekTok (ws0 ++ lit a :: (ws1 ++ .operator .minus :: (ws2 ++ lit b :: tl))) false
+      (width ws) (width ws + 6)) = false := by
+    rw [(afterPeek_solid ws0 (lit a) _ hw0 (lit_isNum a).solid _ _).1]
+    rcases lit_isNum a with h | h | h <;> rw [h] <;> rfl
+  have h := (parseTokens_delete ws _ hw hne).1 _
+    (range_inverted ws0 ws1 ws2 (lit a) (lit b) _ _ a b tl hw0 hw1 hw2 (lit_isNum a) (lit_isNum b)
+      (parseU16_lit ha) (parseU16_lit (by simp only [maxLineNumber]; omega)) hab ha _ _)
+  exact ⟨_, by unfold parse; rw [h], rfl⟩
+
+example : ∃ e, parse none [.word .delete] = .error e ∧ e.code = Code.illegalFunctionCall ∧ e.line = none :=
+  delete_bare_refused none [] [] AllWs.nil stmtEnd_nil
+example : ∃ e, parse (some 10) [.whitespace 1, .word .delete, .whitespace 1, .colon, .word .end] = .error e ∧
+    e.code = Code.illegalFunctionCall ∧ e.line = some 10 :=
+  delete_bare_refused (some 10) [.whitespace 1] _ AllWs.nil.cons
+    (stmtEnd_ws [.whitespace 1] _ AllWs.nil.cons (stmtEnd_colon _))
+example : ∃ e, parse none [.word .delete, .word .else, .word .end] = .error e ∧
+    e.code = Code.illegalFunctionCall ∧ e.line = none :=
+  delete_bare_refused none [] _ AllWs.nil (stmtEnd_else _)
+example : ∃ c c₁ c₂, parse none [.word .list] = .ok [.list c (lineExpr c₁ 0) (lineExpr c₂ 65529)] :=
+  list_bare_full_range none [] [] AllWs.nil lineEnd_nil
+example : ∃ c c₁ c₂, parse none [.word .list, .whitespace 1, lit 10, .operator .minus, lit 20]
+    = .ok [.list c (lineExpr c₁ 10) (lineExpr c₂ 20)] :=
+  list_line_a_minus_b none [] [.whitespace 1] [] [] [] 10 20 AllWs.nil AllWs.nil.cons AllWs.nil AllWs.nil
+    lineEnd_nil (by decide) (by decide)
+example : ∃ c c₁ c₂, parse none [.word .delete, .whitespace 1, lit 10, .operator .minus, lit 20]
+    = .ok [.delete c (lineExpr c₁ 10) (lineExpr c₂ 20)] :=
+  delete_line_a_minus_b none [] [.whitespace 1] [] [] [] 10 20 AllWs.nil AllWs.nil.cons AllWs.nil AllWs.nil
+    lineEnd_nil (by decide) (by decide)
+example : ∃ e, parse none [.word .delete, .whitespace 1, lit 20, .operator .minus, lit 10] = .error e ∧
+    e.code = Code.undefinedLine :=
+  delete_line_inverted none [] [.whitespace 1] [] [] [] 20 10 AllWs.nil AllWs.nil.cons AllWs.nil AllWs.nil
+    (by decide) (by decide)
+
+/-! #### run time -/
+
+/-- DELETE at run time, with the two ends of the range on the stack (`a` below `b`) and both of
+    them line numbers: the statement ends the program (`Event.stopped`), the store afterwards is the
+    store before with exactly the lines numbered `lo … hi` removed, the invariant is kept, and the
+    store is marked dirty exactly when a line was removed.
+    (The operands the compiled statement pushes are `Single` values built by `Float32.ofNat`, which
+    the kernel cannot evaluate; hence the hypotheses on `toLineNumber` instead of concrete values.) -/
+theorem delete_removes_exactly (s : Runtime) (stk : Array Val) (a b : Val) (lo hi : Nat)
+    (h : s.stack = (stk.push a).push b) (ha : a.toLineNumber = .ok (some lo))
+    (hb : b.toLineNumber = .ok (some hi)) :
+    ((doDelete.run).run s).1 = .ok .stopped ∧
+    abs ((doDelete.run).run s).2.listing = (abs s.listing).deleteRange lo hi ∧
+    (WF s.listing → WF ((doDelete.run).run s).2.listing) ∧
+    (((doDelete.run).run s).2.dirty = true ↔
+      s.dirty = true ∨ ∃ k, lo ≤ k ∧ k ≤ hi ∧ (abs s.listing k).isSome = true) := by
+  obtain ⟨h1, h2, h3⟩ := doDelete_listing s stk a b (some lo) (some hi) h ha hb
+  refine ⟨h1, ?_, ?_, ?_⟩
+  · rw [h2]; exact removeRange_refines s.listing lo hi
+  · intro hwf; rw [h2]; exact wf_removeRange hwf _ _
+  · rw [h3, Bool.or_eq_true, (removeRange_exact s.listing (some lo) (some hi)).2]
+    simp only [inRange_some, and_assoc]
+
+/-- … and when no stored line lies in the range the store is the very same and `dirty` keeps its
+    value -/
+theorem delete_nothing_in_range (s : Runtime) (stk : Array Val) (a b : Val) (lo hi : Nat)
+    (h : s.stack = (stk.push a).push b) (ha : a.toLineNumber = .ok (some lo))
+    (hb : b.toLineNumber = .ok (some hi))
+    (hn : ∀ k, lo ≤ k → k ≤ hi → abs s.listing k = none) :
+    ((doDelete.run).run s).1 = .ok .stopped ∧
+    ((doDelete.run).run s).2.listing = s.listing ∧ ((doDelete.run).run s).2.dirty = s.dirty := by
+  have hany : s.listing.source.any (fun p => inRange (some lo) (some hi) p.1) = false := by
+    cases hc : s.listing.source.any (fun p => inRange (some lo) (some hi) p.1) with
+    | false => rfl
+    | true =>
+      obtain ⟨k, hk, hs⟩ := (any_key_iff (fun k => inRange (some lo) (some hi) k) s.listing.source).1 hc
+      have hk' := (inRange_some lo hi k).1 hk
+      have : abs s.listing k = none := hn k hk'.1 hk'.2
+      unfold abs at this
+      rw [this] at hs; cases hs
+  rw [doDelete_noop s stk a b _ _ h ha hb hany]
+  exact ⟨rfl, doEnd_listing _, doEnd_dirty _⟩
+
+/-- an operand that is no line number (`toLineNumber` fails: above 65529, negative, not a number)
+    makes DELETE raise that error; the store and its dirty flag are unchanged -/
+theorem delete_not_a_line_number (s : Runtime) (stk : Array Val) (a b : Val) (e : Error)
+    (h : s.stack = (stk.push a).push b)
+    (hab : a.toLineNumber = .error e ∨ (∃ lo, a.toLineNumber = .ok lo) ∧ b.toLineNumber = .error e) :
+    ((doDelete.run).run s).1 = .error e ∧
+    ((doDelete.run).run s).2.listing = s.listing ∧ ((doDelete.run).run s).2.dirty = s.dirty := by
+  rcases hab with ha | ⟨⟨lo, ha⟩, hb⟩
+  · rw [doDelete_bad_lo s stk a b e h ha]; exact ⟨rfl, rfl, rfl⟩
+  · rw [doDelete_bad_hi s stk a b lo e h ha hb]; exact ⟨rfl, rfl, rfl⟩
+
+/-- which values are no line numbers: anything whose `u16` value exceeds 65529 (UNDEFINED LINE),
+    and anything that is no `u16` (the error of that conversion) -/
+theorem not_a_line_number (v : Val) :
+    (∀ n, v.toU16 = .ok n → 65529 < n → v.toLineNumber = err Code.undefinedLine) ∧
+    (∀ e, v.toU16 = .error e → v.toLineNumber = .error e) :=
+  ⟨fun n h hn => toLineNumber_big v n h hn, fun e h => toLineNumber_noU16 v e h⟩
+
+/-- LIST at run time, with two line numbers on the stack: the runtime enters the listing state for
+    that range; nothing is emitted yet and nothing else changes (the operands are popped) -/
+theorem list_enters_listing (s : Runtime) (stk : Array Val) (a b : Val) (lo hi : Nat)
+    (h : s.stack = (stk.push a).push b) (ha : a.toLineNumber = .ok (some lo))
+    (hb : b.toLineNumber = .ok (some hi)) :
+    (doList.run).run s = (.ok (), { s with stack := stk, state := .listing (some lo) (some hi) }) :=
+  doList_ok s stk a b _ _ h ha hb
+
+/-- … and with an operand that is no line number LIST raises the error and no listing state is
+    entered -/
+theorem list_not_a_line_number (s : Runtime) (stk : Array Val) (a b : Val) (e : Error)
+    (h : s.stack = (stk.push a).push b)
+    (hab : a.toLineNumber = .error e ∨ (∃ lo, a.toLineNumber = .ok lo) ∧ b.toLineNumber = .error e) :
+    (doList.run).run s = (.error e, { s with stack := stk }) := by
+  rcases hab with ha | ⟨⟨lo, ha⟩, hb⟩
+  · exact doList_bad_lo s stk a b e h ha
+  · exact doList_bad_hi s stk a b lo e h ha hb
+
+/-- `listLines` is `listIter` with the last range remembered -/
+theorem listLines_fst (l : Listing) : ∀ (fuel : Nat) (lo hi : Option Nat),
+    (listLines l fuel lo hi).map (·.1) = listIter l fuel lo hi
+  | 0, _, _ => rfl
+  | fuel + 1, lo, hi => by
+    unfold listLines listIter
+    cases l.listLine lo hi with
+    | none => rfl
+    | some x =>
+      obtain ⟨x, lo', hi'⟩ := x
+      simp only
+      rw [← listLines_fst l fuel lo' hi']
+      cases listLines l fuel lo' hi' <;> rfl
+
+/-- LIST at run time: from the listing state of the range `lo … hi` over a well-formed store, as
+    many calls of `Runtime.execute` as there are stored lines in the range return exactly those
+    lines, in ascending order, each as an `Event.list` with its listed text and error columns
+    (`list_emits_exactly`); afterwards the range in the state is exhausted, and apart from the
+    state's range and the print column nothing has changed, the store included -/
+theorem list_runtime_emits_exactly (env : Env) (n : Nat) (s : Runtime) (lo hi : Nat)
+    (hs : s.state = .listing (some lo) (some hi)) (hl : WF s.listing) :
+    ∃ r : Option Nat × Option Nat,
+      executeN env n (listSpec (abs s.listing) lo hi).length s =
+        ((listSpec (abs s.listing) lo hi).map fun p =>
+            Event.list (render s.listing p).1 (render s.listing p).2,
+          { s with state := .listing r.1 r.2,
+                   printCol := if (listSpec (abs s.listing) lo hi).isEmpty then s.printCol else 0 }) ∧
+      s.listing.listLine r.1 r.2 = none := by
+  have hi' := list_emits_exactly s.listing hl lo hi
+  rw [← listLines_fst] at hi'
+  cases hq : listLines s.listing (s.listing.source.length + 1) (some lo) (some hi) with
+  | none => rw [hq] at hi'; cases hi'
+  | some q =>
+    obtain ⟨out, r⟩ := q
+    rw [hq] at hi'
+    simp only [Option.map_some, Option.some.injEq] at hi'
+    subst hi'
+    have := executeN_listing env n _ s _ _ _ r hs hq
+    simp only [List.length_map, List.map_map, List.isEmpty_map] at this
+    exact ⟨r, this, listLines_last _ _ _ _ _ _ hq⟩
+
+/-- once the range is exhausted the next call of `execute` carries on with the rest of the direct
+    line exactly as from the running state (LIST emits nothing more) -/
+theorem list_runtime_done (env : Env) (s : Runtime) (n : Nat) (lo hi : Option Nat)
+    (hs : s.state = .listing lo hi) (hl : s.listing.listLine lo hi = none)
+    (hd : s.listing.directErrors.isEmpty = true) :
+    execute env s n = execute env { s with state := .running } n :=
+  execute_listing_done env s n lo hi hs hl hd
+
+/-- the store of the examples: lines 0, 10 and 65529 -/
+def exStore : Listing :=
+  ({} : Listing).insert ⟨some 10, [.word .end]⟩ |>.insert ⟨some 0, [.word .cls]⟩
+    |>.insert ⟨some 65529, [.word .stop]⟩
+
+/-- `DELETE 10-` on it: the stack holds 10 and 65529.0 (as `f32` bits) -/
+def exDelete : Runtime :=
+  { listing := exStore, stack := (#[].push (.int 10)).push (.sng 0x477FF900) }
+
+example : (Val.int 10).toLineNumber = .ok (some 10) ∧
+    (Val.sng 0x477FF900).toLineNumber = .ok (some 65529) := by decide
+theorem exStore_wf : WF exStore :=
+  wf_insert (wf_insert (wf_insert wf_empty _ 10 rfl (by decide)) _ 0 rfl (by decide)) _ 65529 rfl (by decide)
+example : abs ((doDelete.run).run exDelete).2.listing = (abs exStore).deleteRange 10 65529 :=
+  (delete_removes_exactly exDelete #[] (.int 10) (.sng 0x477FF900) 10 65529 rfl (by decide) (by decide)).2.1
+example : ((doDelete.run).run exDelete).2.listing.source.map (·.1) = [0] ∧
+    ((doDelete.run).run exDelete).2.dirty = true := by decide
+/-- `DELETE 11-20`: nothing there -/
+example : ((doDelete.run).run { exDelete with stack := (#[].push (.int 11)).push (.int 20) }).2.listing
+    = exStore :=
+  (delete_nothing_in_range { exDelete with stack := (#[].push (.int 11)).push (.int 20) } #[]
+    (.int 11) (.int 20) 11 20 rfl (by decide) (by decide) (by
+      intro k h1 h2
+      have : ∀ k : Fin 21, 11 ≤ k.val → abs exStore k.val = none := by decide
+      exact this ⟨k, by omega⟩ h1)).2.1
+/-- 65530.0 and -1 are no line numbers -/
+example : (Val.sng 0x477FFA00).toLineNumber = err Code.undefinedLine ∧
+    (Val.int (-1)).toLineNumber = err Code.overflow := by decide
+example : ((doDelete.run).run { exDelete with stack := (#[].push (.int 10)).push (.sng 0x477FFA00) }).1
+    = err Code.undefinedLine ∧
+    ((doDelete.run).run { exDelete with stack := (#[].push (.int 10)).push (.sng 0x477FFA00) }).2.listing
+    = exStore :=
+  have h := delete_not_a_line_number { exDelete with stack := (#[].push (.int 10)).push (.sng 0x477FFA00) }
+    #[] (.int 10) (.sng 0x477FFA00) (Error.mk' Code.undefinedLine) rfl
+    (Or.inr ⟨⟨some 10, by decide⟩, by decide⟩)
+  ⟨h.1, h.2.1⟩
+example : (Val.sng 0x477FFA00).toLineNumber = err Code.undefinedLine :=
+  (not_a_line_number _).1 65530 (by decide) (by decide)
+example : (Val.str []).toLineNumber = err Code.typeMismatch := (not_a_line_number _).2 _ rfl
+example : (doList.run).run exDelete
+    = (.ok (), { exDelete with stack := #[], state := .listing (some 10) (some 65529) }) :=
+  list_enters_listing exDelete #[] (.int 10) (.sng 0x477FF900) 10 65529 rfl (by decide) (by decide)
+example : (doList.run).run { exDelete with stack := (#[].push (.int (-1))).push (.int 5) }
+    = (.error (Error.mk' Code.overflow), { exDelete with stack := #[] }) :=
+  list_not_a_line_number _ #[] (.int (-1)) (.int 5) _ rfl (Or.inl (by decide))
+/-- `LIST 10-`: two calls of `execute` return lines 10 and 65529 -/
+example (env : Env) : (executeN env 100 2 { listing := exStore, state := .listing (some 10) (some 65529) }).1
+    = [.list "10 END".toList [], .list "65529 STOP".toList []] := by
+  obtain ⟨r, h, _⟩ := list_runtime_emits_exactly env 100
+    { listing := exStore, state := .listing (some 10) (some 65529) } 10 65529 rfl
+    exStore_wf
+  have hs : listSpec (abs exStore) 10 65529 = [(10, ⟨some 10, [.word .end]⟩), (65529, ⟨some 65529, [.word .stop]⟩)] := by
+    rw [← filter_eq_listSpec exStore
+      exStore_wf]
+    decide
+  simp only [hs] at h
+  rw [show (2 : Nat) = [(10, (⟨some 10, [.word .end]⟩ : Line)), (65529, ⟨some 65529, [.word .stop]⟩)].length from rfl, h]
+  have h1 : render exStore (10, ⟨some 10, [.word .end]⟩) = ("10 END".toList, []) := by decide
+  have h2 : render exStore (65529, ⟨some 65529, [.word .stop]⟩) = ("65529 STOP".toList, []) := by decide
+  simp only [List.map_cons, List.map_nil, h1, h2]
+example (env : Env) : execute env { listing := exStore, state := .listing (some endMark) (some endMark) } 5
+    = execute env { listing := exStore, state := .running } 5 :=
+  list_runtime_done env _ 5 _ _ rfl (by decide) rfl
+
+end Statements
 
 /-- the largest line number re-extracted from lang/mod.rs; `Gen/Limits.lean` is regenerated from /repo/src on every run, so editing one of these
     constants in the Rust source breaks this obligation -/
